@@ -811,6 +811,10 @@ func (fr *Frame) run(st *State, reach Term) error {
 			}
 		}
 	}
+	for _, l := range fr.loops.heads {
+		c.registerKey(fr.doneKey(l), SBool, true)
+		st.set(fr.doneKey(l), tFalse)
+	}
 	// iteration counters of unrolled loops: -1 until the loop is reached
 	if fr.con != nil {
 		for _, l := range fr.loops.heads {
@@ -961,6 +965,12 @@ func (fr *Frame) runUnrolled(l *loop, n int) error {
 func (fr *Frame) edge(from, to *ssa.BasicBlock, cond Term, st *State) {
 	if cond.S == "false" {
 		return
+	}
+	// $doneK: loop K was left through its head (its condition became false / the range is
+	// exhausted), as opposed to a break or return from inside the body
+	if l := fr.loops.heads[from]; l != nil && !l.body[to] {
+		st = st.clone()
+		st.set(fr.doneKey(l), tTrue)
 	}
 	if fr.loops.backEdge[[2]int{from.Index, to.Index}] {
 		if fr.unrolling != nil && fr.unrolling.head == to {
@@ -1542,4 +1552,8 @@ func (fr *Frame) markEscaped(in ssa.Instruction) {
 		}
 	}
 	fr.c.privateRefs = keep
+}
+
+func (fr *Frame) doneKey(l *loop) string {
+	return fmt.Sprintf("X:loop%d@%d", l.ordinal, fr.frameID)
 }
